@@ -73,6 +73,72 @@ BIG_RADII = [32767, 32768, 40000, 65535, 65536, 70000, 2 ** 31 - 1, 2 ** 31, 2 *
 HIST_ALPHA = "abcdefgh"
 P_HISTORY, P_THEN = 0.4, 0.3
 
+# ---- clocks.  A timed corpus is a list of (token, tick) events with integer ticks; the timestamp handed to the
+# vectorizer is  tick/8 * unit + shift  (float64).  The definition only involves ratios of tick differences, so the
+# expected matrix (SPEC and Coq model, both on the integer ticks) is the same on every clock.  One unit = a gap of 8
+# ticks: units span 1e-9 .. 1e6 "seconds" both in decimal (timestamps rounded to float64: relative error of a
+# difference <= 2^-52 * |timestamp| / |difference|) and as powers of two (every timestamp exact, also with offsets).
+DEC_UNITS = [1e-9, 1e-6, 1e-4, 1e-3, 1.0, 1e3, 1e6]
+POW2_UNITS = [2.0 ** -30, 2.0 ** -20, 2.0 ** -13, 2.0 ** -10, 2.0 ** 10, 2.0 ** 20]
+GEO_POWERS = [0.5, 0.9, 0.99]
+
+
+def shifts_for(unit):
+    """Offsets under which the float64 timestamps still carry the tick differences to <= 2e-9 ticks (so that the
+    weights, power**(dt/mean gap) with dt/mean gap <= a few hundred, are those of the ticks far inside the 2e-5
+    tolerance): 0, 1e3 and 1e6 units; for power-of-two units also 1.6e9 units (exact: 1.6e9*8 + ticks < 2^53); for
+    integer units the unix-scale 1.6e9 (timestamps are multiples of 1/8 below 2^50: exact)."""
+    out = [0.0, 1e3 * unit, 1e6 * unit]
+    if math.frexp(unit)[0] == 0.5:
+        out.append(1.6e9 * unit)
+    if unit >= 1 and unit == int(unit):
+        out.append(1.6e9)
+    return out
+
+
+def gen_clock(rng):
+    unit = rng.choice(DEC_UNITS + POW2_UNITS + [1.0] * 4)
+    return unit, rng.choice(shifts_for(unit))
+
+
+def clock_family(rng):
+    """In every run: ONE event corpus (ticks) expressed on every clock -- decimal units 1e-9 .. 1e6 without offset and
+    with an offset of 1e6 units, power-of-two units with an offset of 1.6e9 units -- for both timed kernels and
+    power 0.5 / 0.9 / 0.99.  Each matrix is judged by the definition on the ticks; the matrices of one
+    (kernel, power) group are also compared with each other (`clock_group`)."""
+    alpha = ALPHA[:rng.choice([2, 3, 4])]
+    docs = []
+    for L in (rng.choice([6, 8, 10]), 0, 1, rng.choice([4, 5, 12])):
+        t, d = rng.choice([0, 3, 40]), []
+        for _ in range(L):
+            t += rng.choice([1, 1, 2, 4, 8, 8, 12, 16, 24])
+            d.append([rng.choice(alpha), t])
+        docs.append(d)
+    settings = [("geometric", pw) for pw in GEO_POWERS] + [("flat", None)]
+    variants = []
+    for kf, pw in settings:
+        ka = {"offset": rng.choice([0, 0, 1]), "normalize": rng.random() < 0.3}
+        if pw is not None:
+            ka["power"] = pw
+        variants.append({"window_radii": rng.choice([2, 3, 5]), "kernel_functions": kf, "kernel_args": ka,
+                         "window_orientations": rng.choice(["before", "after", "directional"]),
+                         "normalize_windows": rng.random() < 0.4})
+    # one setting with the default power (no kernel_args at all)
+    variants.append({"window_radii": 3, "kernel_functions": "geometric", "window_orientations": "directional",
+                     "normalize_windows": False})
+    clocks = [(u, 0.0) for u in DEC_UNITS] + [(u, 1e6 * u) for u in DEC_UNITS] + [(1.0, 1.6e9), (1e3, 1.6e9)] \
+        + [(u, 1.6e9 * u) for u in POW2_UNITS]
+    out = []
+    for g, kw in enumerate(variants):
+        # every clock for the default-power and one more geometric setting; a random half of them for the others
+        cl = clocks if g in (0, len(variants) - 1) else rng.sample(clocks, len(clocks) // 2)
+        if kw["kernel_functions"] == "geometric" and (1e-4, 0.0) not in cl:
+            cl = cl + [(1e-4, 0.0)]
+        for unit, shift in cl:
+            out.append({"kind": "timed", "docs": [[list(e) for e in d] for d in docs], "kw": dict(kw, kernel_args=dict(kw["kernel_args"])) if "kernel_args" in kw else dict(kw),
+                        "unit": unit, "shift": shift, "clock_group": g})
+    return out
+
 
 def apply_boundaries(rng, case):
     """Boundary values of the numeric parameters relative to the corpus: radii 0, 1, len-1, len, len+1 and far beyond
@@ -138,7 +204,10 @@ def gen_history(rng, case):
     h = {"docs": gen_docs_like(rng, case["kind"], pool, rng.choice([1, 2, 3]), rng.choice([1, 16, 1024]), runs_of),
          "how": rng.choice(["fit", "fit_transform"])}
     if case["kind"] == "timed":
-        h["shift"] = rng.choice([0.0, 1e3, 1.6e9])
+        if "unit" in case:
+            h["unit"], h["shift"] = gen_clock(rng)          # the past ran on another clock
+        else:
+            h["shift"] = rng.choice([0.0, 1e3, 1.6e9])
     if rng.random() < 0.6:
         h["transform"] = gen_docs_like(rng, case["kind"], pool + ["q"], rng.choice([1, 2]), 1, runs_of)
     return h
@@ -155,7 +224,11 @@ def gen_then(rng, case):
         pool = toks + ["q"]
         first = [d for d in case["docs"] if len(d)][:1]
         t["docs"] = [list(x) for x in first] + gen_docs_like(rng, case["kind"], pool, rng.choice([1, 2]), rng.choice([1, 4]))
-    if case["kind"] == "timed":
+    if case["kind"] == "timed" and "unit" in case:
+        # the fitted mean gap is in the clock's unit: the later corpus is on the same clock (any valid offset)
+        t["unit"] = case["unit"]
+        t["shift"] = case.get("shift", 0.0) if t["docs"] == "same" else rng.choice(shifts_for(case["unit"]))
+    elif case["kind"] == "timed":
         t["shift"] = case.get("shift", 0.0) if t["docs"] == "same" else rng.choice([0.0, 1.6e9])
     if rng.random() < 0.4:
         t["ignored"] = gen_docs_like(rng, case["kind"], toks + ["q"], 1, 16)
@@ -172,15 +245,62 @@ def add_call_history(rng, case, p_hist=P_HISTORY, p_then=P_THEN):
     return case
 
 
+def kernel_family(rng):
+    """In every run: each vectorizer kind x each of its kernels with a kernel offset of 1 / 2 and kernel normalisation
+    on / off, windows long enough for the offset to leave something (radius 3-4, documents of 6-10 tokens), window
+    normalisation off and on -- so that the (offset, normalize) arithmetic of every kernel is exercised whatever the
+    random stream draws."""
+    out = []
+    for kind in ("token", "ngram", "timed", "multi"):
+        kernels = ["flat", "geometric"] if kind in ("timed", "multi") else ["flat", "harmonic", "geometric"]
+        pool = list(ALPHA[:rng.choice([2, 3])])
+        for kf in kernels:
+            for off, norm in ((1, True), (2, True), (1, False)):
+                kw = {"window_radii": rng.choice([3, 4]), "kernel_functions": kf,
+                      "kernel_args": {"offset": off, "normalize": norm},
+                      "window_orientations": rng.choice(["directional", "after", "before"]),
+                      "normalize_windows": rng.random() < 0.3}
+                if kf == "geometric" and rng.random() < 0.5:
+                    kw["kernel_args"]["power"] = 0.5
+                case = {"kind": kind, "kw": kw}
+                if kind == "multi":
+                    case["docs"] = [[[rng.choice(pool) for _ in range(rng.choice([1, 2, 3]))] for _ in range(rng.choice([5, 6]))]
+                                    for _ in range(2)]
+                else:
+                    case["docs"] = gen_docs_like(rng, kind, pool, 2) + gen_docs_like(rng, kind, pool, 1)
+                    case["docs"][0] = (case["docs"][0] * 4)[:rng.choice([6, 8, 10])] if kind != "timed" else case["docs"][0]
+                    if kind == "timed":
+                        t, d = 0, []
+                        for _ in range(rng.choice([6, 8, 10])):
+                            t += rng.choice([1, 2, 4, 8])
+                            d.append([rng.choice(pool), t])
+                        case["docs"][0] = d
+                        case["unit"], case["shift"] = gen_clock(rng)
+                    if kind == "ngram":
+                        kw["ngram_size"] = 2
+                out.append(case)
+    return out
+
+
 def gen_case(rng, kind=None):
-    c = gen_case_plain(rng, kind)
+    c = gen_case_plain(rng, kind, clocks=True)
     apply_boundaries(rng, c)
     return add_call_history(rng, c)
 
 
-def gen_case_plain(rng, kind=None):
+def gen_case_plain(rng, kind=None, clocks=False):
+    """clocks (C03's own stream): timed corpora on a random clock (unit 1e-9 .. 1e6, offsets), powers 0.9 / 0.99"""
     kind = kind or rng.choice(["token", "token", "token", "ngram", "timed", "multi"])
     kw = gen_kw(rng, kind)
+    if clocks and kind == "timed" and kw["kernel_functions"] in ("geometric", ["geometric"] * 2) and rng.random() < 0.5:
+        ka = kw.get("kernel_args")
+        pw = rng.choice(GEO_POWERS)
+        if ka is None:
+            nwin = len(listify(kw["window_radii"], 1))
+            kw["kernel_args"] = {"power": pw} if nwin == 1 else [{"power": pw} for _ in range(nwin)]
+        else:
+            for a in ([ka] if isinstance(ka, dict) else ka):
+                a["power"] = pw if "power" not in a or rng.random() < 0.5 else a["power"]
     alpha = ALPHA[:rng.randint(1, 5)]
     with_x = "excluded_tokens" in kw
     nd = rng.choice([1, 1, 2, 2, 3, 4, 5, 6])
@@ -202,7 +322,10 @@ def gen_case_plain(rng, kind=None):
                 d.append([tok, t])
             docs.append(d)
         case["docs"] = docs
-        case["shift"] = rng.choice([0.0, 1e3, 1.6e9])
+        if clocks:
+            case["unit"], case["shift"] = gen_clock(rng)
+        else:
+            case["shift"] = rng.choice([0.0, 1e3, 1.6e9])
     else:
         docs = []
         for _ in range(rng.choice([1, 1, 2, 3])):
@@ -769,8 +892,8 @@ def judge(ctx, case, res, model_val, stats, replay_mode=False, model_then=None):
     stats["oracle_ok"] += 1
     if p["kind"] == "timed" and case.get("history") and "delta_mean" in out and any(b["kind"] != "flat" for b in p["blocks"]):
         # the mean gap handed to the timed geometric kernel is that of the corpus being fitted
-        dm = float(p["delta_mean"])
-        if abs(out["delta_mean"] - dm) > 1e-9 * max(1.0, abs(dm)):
+        dm = float(p["delta_mean"]) * float(case.get("unit", 1.0))
+        if abs(out["delta_mean"] - dm) > 1e-7 * abs(dm) + 1e-9 * float(case.get("unit", 1.0)):
             state_problems.append("delta_mean_ = %r, the mean gap of the fitted corpus is %r" % (out["delta_mean"], dm))
     d_then = None
     if case.get("then") and "then" in out:
@@ -904,11 +1027,11 @@ def same_result(a, b):
 def run(ctx, replay=None):
     C.run_gate(ctx)
     n = 400 if ctx.quick else 5000
-    n_model = 200 if ctx.quick else 1200
+    n_model = 310 if ctx.quick else 1330
     if replay:
         cases = [replay["case"]]
     else:
-        cases = list(CORPUS) + [gen_case(ctx.rng) for _ in range(n)]
+        cases = list(CORPUS) + clock_family(ctx.rng) + kernel_family(ctx.rng) + [gen_case(ctx.rng) for _ in range(n)]
     from concurrent.futures import ThreadPoolExecutor
     ex = ThreadPoolExecutor(max_workers=6)
     jit_idx, futs = start_compiled(ex, cases, N_JIT_QUICK if ctx.quick else N_JIT_THOROUGH, JIT_BUDGET_S[ctx.tier])
@@ -1000,11 +1123,42 @@ def run(ctx, replay=None):
                     judge(ctx, small, rr[0], None, {k: 0 for k in STAT_KEYS})
             except Exception:
                 pass
+    # the same events on different clocks give the same matrix (direct statement; each one is also judged above)
+    groups, n_clock_pairs = {}, 0
+    for c, r in zip(cases, impl):
+        if "clock_group" in c and "ok" in r:
+            groups.setdefault(c["clock_group"], []).append((c, r["ok"]))
+    for g, members in sorted(groups.items()):
+        c0, o0 = members[0]
+        t0 = {(r_, c_): v for r_, c_, v in o0["triples"]}
+        for c1, o1 in members[1:]:
+            n_clock_pairs += 1
+            t1 = {(r_, c_): v for r_, c_, v in o1["triples"]}
+            bad = [k for k in sorted(set(t0) | set(t1))
+                   if abs(t0.get(k, 0.0) - t1.get(k, 0.0)) > 2.5 * REL * max(abs(t0.get(k, 0.0)), abs(t1.get(k, 0.0))) + 2.5 * ABS]
+            if bad and not any(v["found_input"] for v in ctx.violations[before:]):
+                k = bad[0]
+                ctx.report("the same timed events on two clocks give different matrices: cell %s is %.9g with timestamps "
+                           "tick/8*%r+%r and %.9g with tick/8*%r+%r" % (k, t0.get(k, 0.0), c0["unit"], c0["shift"],
+                                                                       t1.get(k, 0.0), c1["unit"], c1["shift"]),
+                           {"stage": "oracle", "case": c1, "other_clock": {"unit": c0["unit"], "shift": c0["shift"]},
+                            "actual": o1["triples"], "on_other_clock": o0["triples"]})
+                break
+    ctx.coverage["clocks"] = {"clock_family_cases": sum(len(m) for m in groups.values()), "groups": len(groups),
+                              "matrices_compared_across_clocks": n_clock_pairs,
+                              "units": sorted(set(float(c.get("unit", 1.0)) for c in cases if c["kind"] == "timed")),
+                              "timed_cases_by_unit": {("%g" % u): sum(1 for c in cases if c["kind"] == "timed" and float(c.get("unit", 1.0)) == u)
+                                                      for u in sorted(set(float(c.get("unit", 1.0)) for c in cases if c["kind"] == "timed"))}}
     ctx.coverage["rule"] = ("random corpora (0-6 sequences incl. empty, lengths 0-12, alphabet 1-5) x vectorizer kind x radii 0-15 "
                             "and (30% of the fixed-window cases) boundary radii 0, 1, len-1, len, len+1, 32767, 32768, 40000, "
                             "65535, 65536, 70000, 2^31-1, 2^31, 2^32+7 x orientations x fixed/variable windows x kernels x "
                             "offset (also = / > the window) / normalize / power (also 1.0) x mix weights (also 0 and 1024) x "
-                            "normalize_windows x excluded/masked tokens x n-gram size 1-3 x timestamp shifts 0/1e3/1.6e9; "
+                            "normalize_windows x excluded/masked tokens x n-gram size 1-3 x clocks (timestamp = tick/8*unit + offset, "
+                            "unit 1e-9, 1e-6, 1e-4, 1e-3, 1, 1e3, 1e6 and powers of two 2^-30 .. 2^20, offsets 0 / 1e3 / 1e6 units / "
+                            "1.6e9 [units]) x power 0.25 .. 1 incl. 0.9, 0.99; in every run one event corpus on all 22 clocks for "
+                            "both timed kernels and power 0.5 / 0.9 / 0.99 / default (clock family, matrices also compared with "
+                            "each other); in every run each kind x kernel with kernel offset 1 / 2 x kernel normalisation on / off on "
+                            "documents of 6-10 tokens (kernel family); "
                             "40% of the cases on an estimator with a past (same object fitted on another corpus -- other "
                             "vocabulary size, time scale x1/x16/x1024, runs of removed tokens, other n-grams -- and used for "
                             "transform), 30% followed by transform(X | Y with unseen tokens) judged by the same definition; "
@@ -1020,8 +1174,10 @@ def run(ctx, replay=None):
                         "exact comparison for flat / dyadic geometric unnormalised settings)",
                         "variable_window_radii is compared with the real-valued formula (ties within 1e-6 not judged) and then "
                         "given to model and SPEC as data",
-                        "timed geometric weights power**(delta/mean gap) are computed in floats by the harness and given to the "
-                        "Coq model as a table; a mean gap of 0 with a geometric kernel is outside the definition (not judged)",
+                        "timed geometric weights power**(delta/mean gap) are computed in floats by the harness FROM THE INTEGER "
+                        "TICKS and given to the Coq model as a table; a mean gap of 0 with a geometric kernel is outside the "
+                        "definition (not judged); timestamps handed to the implementation are tick/8*unit + offset with "
+                        "(unit, offset) restricted to pairs whose float64 rounding moves a difference by <= 2e-9 ticks",
                         "the accumulator (coo_append ... merge) is K1's: here matrix = sum of events by key",
                         "radii above 2^17 are evaluated in the Coq model at (longest sequence + 1): same windows by "
                         "C03_window_radius_saturates / C03_multi_window_radius_saturates; the SPEC oracle uses the true radius",
